@@ -1,6 +1,7 @@
 import RasnModel.IR.Src
 import RasnModel.Lexer.Assemble
 import RasnModel.Gen.Names
+import RasnModel.Extracted.Tagging
 /-
   Model of the rasn generator for constructed types (generator/rasn/builder.rs, utils.rs):
   format_sequence_or_set_members, format_choice_options, format_enum_members, format_tag,
@@ -27,36 +28,32 @@ def isGroupName (n : String) : Bool := n.toList.take extGroupPrefix.toList.lengt
 def nonExhaustive (ext : Option Nat) (implied : Bool) (len : Nat) : Bool :=
   (ext.or (if implied then some len else none)).isSome
 
-/-- tagging environment stored in an `AsnTag` -/
-inductive TEnv where | automatic | implicit | explicit
-  deriving DecidableEq, Repr
+/-- tagging environment stored in an `AsnTag`: REGENERATED from /repo (Extracted/Tagging.lean),
+    together with `envAdd` (`impl Add`) and `formatTagExplicit` (the test inside `format_tag`) -/
+abbrev TEnv := Extracted.Tagging.TaggingEnvironment
+open Extracted.Tagging (envAdd formatTagExplicit)
 
 /-- `environments` + `ModuleHeader::from`: absent TAGS clause ↦ Implicit (sic) -/
 def headerEnv : TagDefault → TEnv
-  | .automatic => .automatic
-  | .explicit => .explicit
-  | .implicit => .implicit
-  | .none => .implicit
+  | .automatic => .Automatic
+  | .explicit => .Explicit
+  | .implicit => .Implicit
+  | .none => .Implicit
 
 /-- `AsnTag::from`: absent keyword ↦ Automatic -/
 def kwEnv : TagKw → TEnv
-  | .none => .automatic
-  | .implicit => .implicit
-  | .explicit => .explicit
-
-/-- `impl Add<&TaggingEnvironment> for &TaggingEnvironment` -/
-def envAdd (self' rhs : TEnv) : TEnv :=
-  match self', rhs with
-  | t, .automatic => t
-  | _, t => t
+  | .none => .Automatic
+  | .implicit => .Implicit
+  | .explicit => .Explicit
 
 /-- `format_tag` on a tag whose environment is `e` -/
-def tagFact (t : Tag) (e : TEnv) : TagF := ⟨t.cls, t.num, e == .explicit, false⟩
+def tagFact (t : Tag) (e : TEnv) : TagF := ⟨t.cls, t.num, formatTagExplicit e, false⟩
 
-/-- first-level tags (TLD tag, members of a top-level SEQUENCE/SET/CHOICE) get `env + kw`;
-    everything deeper keeps the raw keyword environment (`apply_tagging_environment` does not recurse) -/
-def tagAt (env : TEnv) (firstLevel : Bool) (t : Option Tag) : Option TagF :=
-  t.map fun t => tagFact t (if firstLevel then envAdd env (kwEnv t.kw) else kwEnv t.kw)
+/-- every tag — type assignment, component, alternative, at any depth — gets `module default + keyword`
+    (`apply_tagging_environment`, recursive since the `fix:` commit for C03; the `firstLevel` argument
+    is kept for the shape of the generator functions but no longer matters) -/
+def tagAt (env : TEnv) (_firstLevel : Bool) (t : Option Tag) : Option TagF :=
+  t.map fun t => tagFact t (envAdd env (kwEnv t.kw))
 
 def primName : String → String
   | "NULL" => "()"
@@ -133,7 +130,7 @@ structure Ctx where
 
 /-- `tagging_environment == Automatic && !members.any(|m| m.tag.is_some())` -/
 def automaticTags (ctx : Ctx) (members : List SrcComp) : Bool :=
-  ctx.env == .automatic && !members.any (fun c => c.tag.isSome)
+  ctx.env == .Automatic && !members.any (fun c => c.tag.isSome)
 
 abbrev Rec := Bool → String → Option Tag → SrcType → List ItemF
 
@@ -153,8 +150,8 @@ def choiceItem (ctx : Ctx) (firstLevel : Bool) (name : String) (tag : Option Tag
   { name := name, kind := .choice, isSet := false, nonExhaustive := nonExhaustive ext ctx.implied members.length,
     automaticTags := automaticTags ctx members,
     -- tagged top-level CHOICE: forced explicit unless the module default is EXPLICIT
-    tag := tag.map (fun t => if ctx.env != .explicit then tagFact t .explicit
-                              else tagFact t (if firstLevel then envAdd ctx.env (kwEnv t.kw) else kwEnv t.kw)),
+    tag := tag.map (fun t => if ctx.env != .Explicit then tagFact t .Explicit
+                              else tagFact t (envAdd ctx.env (kwEnv t.kw))),
     fields := fieldsOf (variantOf ctx.env firstLevel name ext) members }
 
 def enumItem (ctx : Ctx) (firstLevel : Bool) (asnName : String) (tag : Option Tag)
